@@ -634,7 +634,7 @@ func evalAggregateFunction(ctx context.Context, scope *ReferenceScope, expr pars
 			listExpr = parser.NewIntegerValue(1)
 		}
 
-		if uname == "COUNT" {
+		if uname == "COUNT" && !expr.IsDistinct() {
 			if pt, ok := listExpr.(parser.PrimitiveType); ok {
 				v := pt.Value
 				if !value.IsNull(v) && !value.IsUnknown(v) && scope.Records[0].IsInRange() {
